@@ -100,6 +100,9 @@ func TestGlobalView(t *testing.T) {
 		if withGhost {
 			members = append(members, ghost)
 		}
+		// the order in which consensus lists the members is not fixed (the
+		// unreachable one may come first)
+		members = rapid.Permutation(members).Draw(t, "memberOrder")
 		caller := rapid.IntRange(0, 2).Draw(t, "caller")
 		follower := rapid.IntRange(0, 5).Draw(t, "follower") == 0
 		nCids := rapid.IntRange(0, 4).Draw(t, "ncids")
@@ -160,18 +163,28 @@ func TestGlobalView(t *testing.T) {
 			case "meta":
 				pin.Type = api.MetaType
 				pin.ReplicationFactorMin, pin.ReplicationFactorMax = -1, -1
+				metaIsFinite := rapid.Bool().Draw(t, "metaFinite")
+				if metaIsFinite {
+					pin.ReplicationFactorMin, pin.ReplicationFactorMax = 1, 2
+				}
 				cd := gen.Cids[11]
 				pin.Reference = &cd
 				sp.alloc = members
+				if metaIsFinite {
+					// a meta pin has no allocations: with finite factors the
+					// per-CID view has nobody to ask and, by the statement's rule
+					// for the cluster-wide view, marks every member remote (the
+					// listing still carries each peer's own 'sharded' report)
+					sp.alloc = nil
+				}
 			}
 			r.shared.Put(pin)
 			inAlloc := map[peer.ID]bool{}
 			for _, a := range sp.alloc {
 				inAlloc[a] = true
 			}
-			r.mu.Lock()
-			r.names[sp.c.String()] = sp.name
-			for p := range live {
+			// (no draws while the rig's lock is held: a draw may abort the case)
+			for _, p := range []peer.ID{r.fx[0].ID, r.fx[1].ID, r.fx[2].ID} {
 				var st api.TrackerStatus
 				switch {
 				case sp.kind == "meta":
@@ -182,6 +195,10 @@ func TestGlobalView(t *testing.T) {
 					st = api.TrackerStatusRemote
 				}
 				sp.statusByPe[p] = st
+			}
+			r.mu.Lock()
+			r.names[sp.c.String()] = sp.name
+			for p, st := range sp.statusByPe {
 				r.script[p][sp.c.String()] = st
 			}
 			r.mu.Unlock()
@@ -222,6 +239,9 @@ func TestGlobalView(t *testing.T) {
 				}
 				for _, m := range expectedPeers {
 					switch {
+					case follower:
+						// a follower only asks itself, whatever the allocations
+						want[m] = sp.statusByPe[m]
 					case inAlloc[m] && live[m]:
 						want[m] = sp.statusByPe[m]
 					case inAlloc[m]:
